@@ -326,6 +326,9 @@ func runC09(r *vk.Run) {
 			}
 			for j := 0; j < rng.Range(1, 6); j++ {
 				ts := metricT0 + (first+int64(j))*1e9 + int64(rng.Intn(900))*1e6
+				if rng.Chance(1, 3) {
+					ts = metricT0 + (first+int64(j))*1e9 // exactly on a grid time: the right edge of its window
+				}
 				if j > 0 && rng.Chance(1, 3) {
 					ts = cs.Frames[j-1].TS // a burst: two writes (stdout, stderr) at one instant are two records
 				}
@@ -467,6 +470,51 @@ func runC09(r *vk.Run) {
 		}
 	})
 	r.Require("fine_edge_cases_with_samples_on_an_edge", 150)
+
+	// grids longer than any "max data points" default: the requested grid is the grid
+	r.Phase("longgrid", r.N(2, 12), func(c *vk.Case) {
+		rng := c.Rng
+		span := int64(rng.Range(11500, 14000))
+		step := time.Second
+		at := []int64{int64(rng.Range(1, 50)), span / 2, span - int64(rng.Range(1, 50))}
+		var recs []Rec
+		for i, s := range at {
+			recs = append(recs, Rec{TS: metricT0 + s*1e9 - 2e8, Line: fmt.Sprintf("tick %d", i), Labels: map[string]string{"job": "j"}})
+		}
+		q := `count_over_time({job="j"} | drop msg [1s])`
+		p := EvalP{Start: metricT0, End: metricT0 + span*1e9, Step: step}
+		res, err := evalQuery(&MemQuerier{Recs: recs, ErrAfter: -1}, q, p)
+		c.Eval(1)
+		det := map[string]any{"query": q, "params": p, "records": recs, "result": res}
+		if err != nil {
+			c.Fail("", "query failed: "+err.Error(), det)
+			return
+		}
+		atRes, dup := resultAt(res)
+		if dup != "" {
+			c.Fail("", dup, det)
+			return
+		}
+		want := map[int64]bool{}
+		for _, s := range at {
+			want[(metricT0+s*1e9)/1e6] = true
+		}
+		for T := range atRes {
+			if !want[T] {
+				c.Fail("", fmt.Sprintf("%s over %d steps of 1s: a point at t=%dms, which is not a grid time holding a sample", q, span, T-metricT0/1e6), det)
+				return
+			}
+		}
+		for T := range want {
+			if v, ok := atRes[T][labelKey(map[string]string{"job": "j"})]; !ok || v.V != 1 {
+				c.Fail("", fmt.Sprintf("%s over %d steps of 1s: grid time t=%dms holds one sample but reports %v (present=%v)", q, span, T-metricT0/1e6, v.V, ok), det)
+				return
+			}
+		}
+		c.Count("long_grid_evaluations", 1)
+		c.Nontrivial(fmt.Sprintf("longgrid|%d", c.Idx))
+	})
+	r.Require("long_grid_evaluations", 2)
 
 	r.Require("compared_points", 5000)
 	r.Require("edge_samples", 1000)
